@@ -122,7 +122,7 @@ func checkC01(c *Ctx) {
 	checkKeyNormalisation(c, "C01.R7.map-keys", gen)
 
 	// ---- R8 platform suffixes
-	checkPlatformSuffixes(c, gen)
+	checkPlatformSuffixes(c, "C01.R8.file-suffixes", gen)
 
 	// ---- R9 code swallowed by a comment
 	c.Rule("C01.R9.commented-code", "no template text holding Go statement tokens (`:=`, `err != nil`, `if err`, `func (`, `); err`) is lexed inside a comment in any instantiation (whitespace trimming that glues code onto a comment line)", 1)
@@ -559,8 +559,7 @@ func checkKeyNormalisation(c *Ctx, rule string, pk *packages.Package) {
 // checkPlatformSuffixes: file names ending in a GOOS / GOARCH / test suffix are excluded from
 // the build by the go tool; the generator's suffix table must list every such suffix known to
 // the Go release in use.
-func checkPlatformSuffixes(c *Ctx, gen *packages.Package) {
-	rule := "C01.R8.file-suffixes"
+func checkPlatformSuffixes(c *Ctx, rule string, gen *packages.Package) {
 	c.Rule(rule, "the reserved file-name suffix tables list every GOOS and GOARCH known to the go tool (a generated file named *_<suffix>.go is silently left out of the build) and `test`", 20)
 	info := gen.TypesInfo
 	have := map[string]bool{}
